@@ -38,6 +38,9 @@ type spec struct {
 	grouped  bool
 	minPMS   int // smallest PayloadMaxSize the encoder is used with
 	maxUnits int // units per Encode call
+	// manyUnits (0 = none): in a tenth of the runs some frames carry up to this many units (many
+	// slices per picture), towards the decoders' documented per-frame limits
+	manyUnits int
 	min0     int // minimum size of unit 0 (room for header + identity tag)
 	minN     int // minimum size of the other units
 	hdr      int // packet header bytes in front of a single unit (for threshold sizes)
@@ -45,8 +48,8 @@ type spec struct {
 }
 
 var specs = map[string]spec{
-	"h264":       {grouped: true, minPMS: 12, maxUnits: 8, min0: 4, minN: 1, hdr: 0},
-	"h265":       {grouped: true, minPMS: 12, maxUnits: 8, min0: 5, minN: 3, hdr: 0},
+	"h264":       {grouped: true, minPMS: 12, maxUnits: 8, manyUnits: 30, min0: 4, minN: 1, hdr: 0},
+	"h265":       {grouped: true, minPMS: 12, maxUnits: 8, manyUnits: 21, min0: 5, minN: 3, hdr: 0}, // 21 = the decoder's documented NALU limit per access unit
 	"av1":        {grouped: true, minPMS: 12, maxUnits: 8, min0: 4, minN: 1, hdr: 1},
 	"vp8":        {grouped: true, minPMS: 8, maxUnits: 1, min0: 4, minN: 4, hdr: 1},
 	"vp9":        {grouped: true, minPMS: 20, maxUnits: 1, min0: 12, minN: 12, hdr: 3},
